@@ -178,6 +178,11 @@ WindowFrames(n, w)       == n..(n + w - 1)
 CentreSet(n, w) == IF w % 2 = 1 THEN {n + (w - 1) \div 2} ELSE {n + w \div 2 - 1, n + w \div 2}
 WindowSum(prop, n, w, i, c) == SumSeq([f \in 1..w |-> prop[n + f][i][c]])
 WindowMean(prop, n, w, i, c) == RNorm(WindowSum(prop, n, w, i, c), w)
+\* Undefined entries.  A per-particle quantity may be undefined in a frame (the order parameter of a particle
+\* without neighbours is 0/0): undef = set of <<frame (from 0), particle>>.  The mean over a window is defined
+\* iff every frame of the window is defined for that particle - an undefined frame does not leak into the
+\* windows that do not contain it.
+WindowDefined(undef, n, w, i) == \A f \in WindowFrames(n, w) : <<f, i>> \notin undef
 \* the statement fixes the windows, not how many of them are reported: every
 \* complete window (T - w + 1 of them) or all but the last (the code) are accepted
 RowsSet(T, w) == {T - w, T - w + 1}
